@@ -208,6 +208,8 @@ class Mgr:
         kind, k = sel
         if kind == "n":
             return self.names[k]
+        if kind == "h":                               # a listed name whose module fails half-way through its import (halfway_import_probe)
+            return ("tkh" if self.tenalg else "bkh") + str(k)
         if kind == "o":
             if k == 20:
                 return self.nameless
@@ -1020,6 +1022,96 @@ def name_first(manager_cls):
         if any(isinstance(n, ast.Attribute) and n.attr == "backend_name" and isinstance(n.ctx, ast.Load) for n in ast.walk(st)):
             return True
     return False
+
+
+class _HalfwayFinder:
+    """meta-path finder + loader for tensorly.backend.bkh<k>_backend / tensorly.tenalg.tkh<k>_tenalg: the module defines (and thereby
+    registers) its backend class and THEN raises ImportError - a backend whose import fails half-way"""
+
+    def find_spec(self, fullname, path=None, target=None):
+        import importlib.machinery
+        tail = fullname.rsplit(".", 1)[-1]
+        if (fullname.startswith("tensorly.backend.bkh") and tail.endswith("_backend")) or \
+                (fullname.startswith("tensorly.tenalg.tkh") and tail.endswith("_tenalg")):
+            return importlib.machinery.ModuleSpec(fullname, self)
+        return None
+
+    def create_module(self, spec):
+        return None
+
+    def exec_module(self, module):
+        tail = module.__name__.rsplit(".", 1)[-1]
+        name = tail.rsplit("_", 1)[0]
+        if tail.endswith("_tenalg"):
+            from tensorly.tenalg.core_tenalg import CoreTenalgBackend as Base
+        else:
+            from tensorly.backend.numpy_backend import NumpyBackend as Base
+        type("H_", (Base,), {}, backend_name=name)
+        raise ImportError("C17 harness: this backend module fails half-way through its import")
+
+
+def halfway_import_probe():
+    """item: an exception raised INSIDE set_backend while it loads a backend.  Per manager and flavour: a fresh thread selects
+    (set / context) a listed name whose module registers its class and then fails.  Must hold (C17 rejection clause): the
+    failed selection changes NOBODY's backend.  Recorded, not judged: the retry succeeds (the class stayed registered), and then
+    behaves like any selection.  Returns (failures [(predicate, message, inputs)], notes)."""
+    fails, notes = [], []
+    finder = _HalfwayFinder()
+    sys.meta_path.insert(0, finder)
+    idx = 0
+    try:
+        for m in (0, 1):
+            M = Mgr.get(m)
+            for kind in ("set", "enter"):
+                for local in (False, True):
+                    idx += 1
+                    name = M.sel_obj(("h", idx))
+                    M.mgr.available_backend_names.append(name)
+                    M.reset()
+                    workers = {}
+                    try:
+                        for t in (1, 2):
+                            w = AbortWorker(m, t)
+                            w.start()
+                            workers[t] = w
+
+                        def views(actor=None, own=None):
+                            return [own if t == actor else (aobserve(m) if t == 0 else workers[t].call(("obs",))) for t in range(3)]
+                        v0 = views()
+                        inputs = {"mode": 20, "manager": m, "call": kind, "local_threadsafe": local, "selector": name}
+                        res1, own1 = workers[1].call((kind, m, ("h", idx), local))
+                        v1 = views(1, own1)
+                        if res1 != "rejected":
+                            notes.append(f"{name}: the first selection of a backend whose import fails half-way ended with {res1!r}")
+                        elif v1 != v0:
+                            fails.append(("C17_rejection", f"{kind}({name!r}, local_threadsafe={local}) raised while the backend module failed half-way through "
+                                          f"its import, yet the views changed from {v0} to {v1}", inputs))
+                        res2, own2 = workers[1].call((kind, m, ("h", idx), local))
+                        v2 = views(1, own2)
+                        notes.append(f"{name}: first attempt {res1}, retry {res2}")
+                        if res2 == "done":
+                            if v2[0] != v0[0] or (local and v2[2] != v0[2]) or (not local and v2[2][1] != v2[1][1]):
+                                fails.append(("C17_view", f"after the retry of {kind}({name!r}, local_threadsafe={local}) succeeded the threads observe {v2} "
+                                              f"(before: {v0}): the main thread (own selection) must be unchanged, thread 2 (none) must follow iff not local", inputs))
+                            if getattr(M.mgr.current_backend(), "backend_name", None) == name:
+                                fails.append(("C17_isolation_step", f"the main thread follows {name!r} selected by thread 1", inputs))
+                    finally:
+                        for w in workers.values():
+                            w.q.put(("stop",))
+                        for w in workers.values():
+                            if w.thread is not None:
+                                w.thread.join(timeout=TIMEOUT)
+                        M.reset()
+                        try:
+                            M.mgr.available_backend_names.remove(name)
+                        except ValueError:
+                            pass
+                        M.cls._loaded_backends.pop(name, None)
+                        reg = getattr(M.cls._backend_class, "_available_tenalg_backends" if m else "_available_backends", {})
+                        reg.pop(name, None)
+    finally:
+        sys.meta_path.remove(finder)
+    return fails, notes
 
 
 def aseen_digits(obs):
@@ -3509,6 +3601,17 @@ def run(chk):
     nproc = max(1, min(16, C.NPROC))
     results, extras = execute(groups, nproc)
     t_impl = time.time() - t0
+    try:
+        hw_fails, hw_notes = halfway_import_probe()
+        chk.cov["halfway_import_probes"] = len(hw_notes)
+        chk.hist("group", "both:halfway-import-probe")
+        retried = sorted({n.split(": ", 1)[1] for n in hw_notes if ": first attempt" in n})
+        chk.notes.append("a backend whose module fails half-way through its import (after registering its class): the selection is rejected with nobody's "
+                         f"backend changed (judged); observed sequence(s): {retried} - a retry finds the class registered and succeeds (recorded, not a C17 matter)")
+        for (pred, msg, inputs) in hw_fails:
+            chk.finding(ABORT_ENTRY, inputs, msg, pred)
+    except Exception as e:  # noqa
+        chk.cov["halfway_import_probes"] = f"not evaluated ({e!r})"
     for M in Mgr.both():
         M.reset()
         M.unmark()
@@ -3562,7 +3665,8 @@ def run(chk):
             for o in outs:
                 chk.hist("operation", o)
             if fail is not None:
-                found.append(((len(h) if mode not in (18, 19) else len(h[1]) + len(h[5])) if mode != 11 else 0, cid, fail))
+                # must-report findings (the rebind sweep, the known nameless-instance finding) sort first: the list is capped at 60
+                found.append(((len(h) if mode not in (18, 19) else (0 if fail[0] == "C17_rejection" else len(h[1]) + len(h[5]))) if mode != 11 else 0, cid, fail))
     # shortest failing histories first; every finding carries the prefix of the history up to the failing step
     found.sort()
     for (_, cid, (pred, i, msg)) in found[:60]:
@@ -3839,6 +3943,14 @@ def replay(payload):
         print("replay file names a broken theorem/correspondence, not an input:", payload.get("theorem_or_correspondence"))
         return 1
     inp = payload["inputs"]
+    if int(inp["mode"]) == 20:
+        fails, notes = halfway_import_probe()
+        for M in Mgr.both():
+            M.reset()
+            M.unmark()
+        for f in fails[:5]:
+            print("replay:", f[:2])
+        return 1 if fails else 0
     if int(inp["mode"]) in (18, 19):
         sc = abort_from_json(inp["scenario"])
         Ms = Mgr.both()
